@@ -278,6 +278,34 @@ impl Kw {
 }
 
 pub fn run(rng: &mut Rng, n: usize, rep: &mut Report) {
+    run_with(rng, n, rep, &mut None)
+}
+
+/// family `venue`: one `vn.kdep` / `vn.kwd` line per real kamino_deposit / kamino_withdraw of this monitor whose outcome the
+/// instruction-level model (Mfi/Model/Venue.lean) speaks about: entitled signer, operational bank, fresh reserve, no debt
+pub fn gen(rng: &mut Rng, n: usize, out: &mut Vec<String>) {
+    let mut guard = 0;
+    while out.len() < n && guard < 200 {
+        guard += 1;
+        let mut scratch = Report::default();
+        let mut part: Option<Vec<String>> = Some(vec![]);
+        run_with(rng, 400, &mut scratch, &mut part);
+        out.extend(part.unwrap());
+    }
+    out.truncate(n);
+}
+
+fn pos_of(w: &World, acct: &Pubkey, bank: &Pubkey) -> Option<marginfi_type_crate::types::Balance> {
+    w.marginfi_account(acct).lending_account.balances.iter().find(|b| b.is_active() && b.bank_pk == *bank).cloned()
+}
+fn pos_line(x: &Option<marginfi_type_crate::types::Balance>) -> String {
+    match x {
+        Some(bal) => format!("1 {}", crate::fam_bank::Bal::from_balance(bal).line()),
+        None => "0 0 0 0 0 0 0".to_string(),
+    }
+}
+
+pub fn run_with(rng: &mut Rng, n: usize, rep: &mut Report, lines: &mut Option<Vec<String>>) {
     let mut done = 0usize;
     while done < n {
         let Some(mut k) = build(rng, rep) else { rep.bump("world_build_failed"); done += 1; continue };
@@ -307,8 +335,29 @@ pub fn run(rng: &mut Rng, n: usize, rep: &mut Report) {
                     let skew: i64 = if rng.chance(1, 5) { *rng.pick(&[-3i64, -2, -1, 1, 2, 3]) } else { 0 };
                     KAMINO_SKEW_COLLATERAL.store(skew, Ordering::SeqCst);
                     let who = if rng.chance(1, 8) { stranger } else { wallet };
+                    let p0 = pos_of(&k.w, &acct, &k.kb.bank);
                     let r = k.w.exec(&k.deposit_ix(u, who, amount));
                     KAMINO_SKEW_COLLATERAL.store(0, Ordering::SeqCst);
+                    if let (Some(l), true) = (lines.as_mut(), who == wallet && !stale && state == BankOperationalState::Operational) {
+                        // marginfi's own expectation: the real conversion function on the reserve as it was
+                        if let Ok(expected) = r0.liquidity_to_collateral(amount) {
+                            let exp_c: BigInt = if col == BigInt::from(0) || liq_sf <= BigInt::from(0) { BigInt::from(amount) } else { (BigInt::from(amount) << 60u32) * &col / &liq_sf };
+                            let post = BigInt::from(o0.deposits[0].deposited_amount) + exp_c + BigInt::from(skew);
+                            let head = format!("vn.kdep {} {} {} {} {} {} {}", crate::fam_bank::B::from_bank(&bank0).line(), bank0.last_update, pos_line(&p0), k.w.clock_ts, expected, o0.deposits[0].deposited_amount, post);
+                            match &r {
+                                Ok(()) => {
+                                    let b1 = k.w.bank(&k.kb.bank);
+                                    let p1 = pos_of(&k.w, &acct, &k.kb.bank);
+                                    let got = read_obligation(&k.w, &k.obligation).deposits[0].deposited_amount - o0.deposits[0].deposited_amount;
+                                    l.push(format!("{} => ok {} {} {} {}", head, crate::fam_bank::B::from_bank(&b1).line(), b1.last_update, pos_line(&p1), got));
+                                }
+                                Err(e) => match e.code() {
+                                    Some(c) if c >= 6000 => l.push(format!("{} => err {}", head, c)),
+                                    _ => {}
+                                },
+                            }
+                        }
+                    }
                     let exp_col: BigInt = if col == BigInt::from(0) || liq_sf <= BigInt::from(0) { BigInt::from(amount) } else { (BigInt::from(amount) << 60u32) * &col / &liq_sf };
                     match r {
                         Err(e) => {
@@ -362,9 +411,39 @@ pub fn run(rng: &mut Rng, n: usize, rep: &mut Report) {
                         let a = k.w.marginfi_account(&acct);
                         a.lending_account.balances.iter().find(|b| b.is_active() && b.bank_pk == k.debt.bank).map(|b| bits(b.liability_shares)).unwrap_or(0)
                     };
+                    let p0 = pos_of(&k.w, &acct, &k.kb.bank);
+                    let vault0 = k.w.token_amount(&k.kb.liquidity_vault);
                     let r = k.w.exec(&k.withdraw_ix(u, who, amount, all));
                     KAMINO_SKEW_COLLATERAL.store(0, Ordering::SeqCst);
                     KAMINO_SKEW_LIQUIDITY.store(0, Ordering::SeqCst);
+                    if let (Some(l), true) = (lines.as_mut(), who == wallet && !stale && state != BankOperationalState::Paused && debt_before == 0 && p0.is_some()) {
+                        // the collateral the handler will ask Kamino for, marginfi's own expectation of the liquidity (the real
+                        // conversion function on the reserve as it was), and what the stand-in then does to obligation and vault
+                        let c: u64 = if all { held } else { amount };
+                        if let Ok(expected) = r0.collateral_to_liquidity(c) {
+                            if c as i128 + sk_c as i128 >= 0 && c as i128 + sk_c as i128 <= o0.deposits[0].deposited_amount as i128 && col > BigInt::from(0) {
+                                let liq: BigInt = ((BigInt::from(c) * &liq_sf) / &col) >> 60u32;
+                                let liq = liq + BigInt::from(sk_l);
+                                if liq >= BigInt::from(0) && liq <= BigInt::from(r0.available_amount) {
+                                    let head = format!("vn.kwd {} {} {} {} {} {} {} {} {} {} {}", crate::fam_bank::B::from_bank(&bank0).line(), bank0.last_update, pos_line(&p0), k.w.clock_ts,
+                                        amount, all as u8, expected, o0.deposits[0].deposited_amount, o0.deposits[0].deposited_amount as i128 - c as i128 - sk_c as i128, vault0, BigInt::from(vault0) + &liq);
+                                    match &r {
+                                        Ok(()) => {
+                                            let b1 = k.w.bank(&k.kb.bank);
+                                            let p1 = pos_of(&k.w, &acct, &k.kb.bank);
+                                            let p1_line = match &p1 { Some(b) => crate::fam_bank::Bal::from_balance(b).line(), None => "0 0 0 0 0 0".to_string() };
+                                            let paid = k.w.token_amount(&tk) as i128 - user0 as i128;
+                                            l.push(format!("{} => ok {} {} {} {} {}", head, crate::fam_bank::B::from_bank(&b1).line(), b1.last_update, p1_line, c, paid));
+                                        }
+                                        Err(e) => match e.code() {
+                                            Some(cd) if cd >= 6000 && cd != 6009 => l.push(format!("{} => err {}", head, cd)),
+                                            _ => {}
+                                        },
+                                    }
+                                }
+                            }
+                        }
+                    }
                     match r {
                         Err(e) => {
                             rep.bump("withdraw_refused");
